@@ -5,22 +5,22 @@ ROOT = os.path.dirname(os.path.dirname(os.path.abspath(__file__)))
 S = os.path.join(ROOT, "seeded")
 verify = {}
 lines = list(open(os.path.join(S, "verify_results.txt")))
-for extra in ("verify_results_B.txt", "verify_results_C.txt", "verify_results_D.txt", "verify_results_E.txt", "verify_results_F.txt", "verify_results_G.txt", "verify_results_H.txt", "verify_results_I.txt", "verify_results_J.txt", "verify_results_K.txt", "verify_results_L.txt", "verify_results_N.txt", "verify_results_O.txt", "verify_results_P.txt", "verify_results_Q.txt"):
+for extra in ("verify_results_B.txt", "verify_results_C.txt", "verify_results_D.txt", "verify_results_E.txt", "verify_results_F.txt", "verify_results_G.txt", "verify_results_H.txt", "verify_results_I.txt", "verify_results_J.txt", "verify_results_K.txt", "verify_results_L.txt", "verify_results_N.txt", "verify_results_O.txt", "verify_results_P.txt", "verify_results_Q.txt", "verify_results_R.txt"):
     if os.path.exists(os.path.join(S, extra)):
         lines += list(open(os.path.join(S, extra)))
 for line in lines:
-    m = re.match(r"(C\d+)/([mbcdefghijklnopq]\d): demo_without=(\d+) demo_with=(\d+) suite_with=(\d+)", line)
+    m = re.match(r"(C\d+)/([mbcdefghijklnopqr]\d): demo_without=(\d+) demo_with=(\d+) suite_with=(\d+)", line)
     if m:
         verify[(m.group(1), m.group(2))] = dict(demo_without_patch_exit=int(m.group(3)), demo_with_patch_exit=int(m.group(4)), suite_with_patch_exit=int(m.group(5)))
 detect = {}
 for f in sorted(glob.glob(os.path.join(S, "detect_round*.txt"))):
     rnd = os.path.basename(f)
     for line in open(f):
-        m = re.match(r"(C\d+)/([mbcdefghijklnopq]\d) check=(C\d+) exit=(\d+) secs=(\d+) ?(.*)", line)
+        m = re.match(r"(C\d+)/([mbcdefghijklnopqr]\d) check=(C\d+) exit=(\d+) secs=(\d+) ?(.*)", line)
         if m:
             detect.setdefault((m.group(1), m.group(2)), []).append(dict(round=rnd, check=m.group(3), exit=int(m.group(4)), secs=int(m.group(5)), report=m.group(6).strip()[:300]))
 rows = []
-for d in sorted(glob.glob(os.path.join(S, "C*", "[mbcdefghijklnopq]*"))):
+for d in sorted(glob.glob(os.path.join(S, "C*", "[mbcdefghijklnopqr]*"))):
     pid, m = d.split(os.sep)[-2:]
     am = json.load(open(os.path.join(d, "agent_meta.json")))
     v = verify.get((pid, m), {})
@@ -31,10 +31,10 @@ for d in sorted(glob.glob(os.path.join(S, "C*", "[mbcdefghijklnopq]*"))):
         "breaks": am.get("summary", ""),
         "site": am.get("site", ""),
         "needs_to_manifest": am.get("needs_to_manifest", ""),
-        "origin": "written by an independent sub-agent that saw only the property text and its own worktree of /repo" + (" (second round: also told which sites the first round had used)" if m.startswith("b") else " (third round: one agent per source area, given all 20 property texts and the sites used before)" if m.startswith("c") else " (fourth round: C08/C09/C10/C13 only, asked for state kept outside LMDB: caches, statics, files)" if m.startswith("d") else " (fifth round: one agent per source area, asked for changes that need a rare conjunction of conditions - one magic size, id, dimension or history shape - to manifest)" if m.startswith("e") else " (sixth round: one agent per property, given only that property's text and the sites used before, asked for rare-conjunction triggers)" if m.startswith("f") else " (seventh round: as the sixth, for the other twelve properties)" if m.startswith("g") else " (eighth round: one agent per source area, asked for changes in the style of a performance pull request - caches, memos, batching, pruning, parallelised loops - correct on the common path)" if m.startswith("h") else " (ninth round: one agent per pair of features, asked for changes that show only when both features are in play, with per-feature controls in the demonstration)" if m.startswith("i") else " (tenth round: one agent per library family the crate builds on - roaring, heed/LMDB, rayon/atomics, float and SIMD intrinsics, error handling, integer arithmetic - asked for changes that turn on a documented subtlety of that library)" if m.startswith("j") else " (eleventh round: agents asked to violate a property in a way the most natural randomized check of it would not see - another observer, another moment, another API call)" if m.startswith("k") else " (twelfth round: as the eleventh, for the remaining property groups and the most fertile ones again)" if m.startswith("l") else " (thirteenth round: one agent per family of history shapes - emptying and refilling, metric-change sequences, several indexes in one transaction, build options changing over many builds, overwrite patterns, transaction patterns)" if m.startswith("n") else " (fourteenth and last round: one agent per source area, any style, asked to read closely for what is left)" if m.startswith("o") else " (fifteenth round: four agents, five properties each, asked to split every statement into clauses and to break the clause a tester would most likely forget)" if m.startswith("p") else " (sixteenth round: five agents, one per range of source files, asked to read line by line for what fifteen rounds had left)" if m.startswith("q") else ""),
+        "origin": "written by an independent sub-agent that saw only the property text and its own worktree of /repo" + (" (second round: also told which sites the first round had used)" if m.startswith("b") else " (third round: one agent per source area, given all 20 property texts and the sites used before)" if m.startswith("c") else " (fourth round: C08/C09/C10/C13 only, asked for state kept outside LMDB: caches, statics, files)" if m.startswith("d") else " (fifth round: one agent per source area, asked for changes that need a rare conjunction of conditions - one magic size, id, dimension or history shape - to manifest)" if m.startswith("e") else " (sixth round: one agent per property, given only that property's text and the sites used before, asked for rare-conjunction triggers)" if m.startswith("f") else " (seventh round: as the sixth, for the other twelve properties)" if m.startswith("g") else " (eighth round: one agent per source area, asked for changes in the style of a performance pull request - caches, memos, batching, pruning, parallelised loops - correct on the common path)" if m.startswith("h") else " (ninth round: one agent per pair of features, asked for changes that show only when both features are in play, with per-feature controls in the demonstration)" if m.startswith("i") else " (tenth round: one agent per library family the crate builds on - roaring, heed/LMDB, rayon/atomics, float and SIMD intrinsics, error handling, integer arithmetic - asked for changes that turn on a documented subtlety of that library)" if m.startswith("j") else " (eleventh round: agents asked to violate a property in a way the most natural randomized check of it would not see - another observer, another moment, another API call)" if m.startswith("k") else " (twelfth round: as the eleventh, for the remaining property groups and the most fertile ones again)" if m.startswith("l") else " (thirteenth round: one agent per family of history shapes - emptying and refilling, metric-change sequences, several indexes in one transaction, build options changing over many builds, overwrite patterns, transaction patterns)" if m.startswith("n") else " (fourteenth and last round: one agent per source area, any style, asked to read closely for what is left)" if m.startswith("o") else " (fifteenth round: four agents, five properties each, asked to split every statement into clauses and to break the clause a tester would most likely forget)" if m.startswith("p") else " (sixteenth round: five agents, one per range of source files, asked to read line by line for what fifteen rounds had left)" if m.startswith("q") else " (seventeenth round, continuation session: sixteen agents, one property each and nothing else, asked for changes that need a multi-step history, an edge value, a particular option combination, an abort/cancel point or two cooperating sites to manifest)" if m.startswith("r") else ""),
         "what_i_ran": {
             "worktree": "scratch git worktree of /repo HEAD under /tmp (removed afterwards)",
-            "demo_without_patch": "cargo test --offline --test seed_demo (demo.rs copied to tests/; C13/m3: unit-test module wired by one line)  -> exit %s" % v.get("demo_without_patch_exit"),
+            "demo_without_patch": ("demo.rs appended to the file named in agent_meta.json (demo_target); cargo test --offline --lib <each demo test> -> exit %s" if m.startswith("r") else "cargo test --offline --test seed_demo (demo.rs copied to tests/; C13/m3: unit-test module wired by one line)  -> exit %s") % v.get("demo_without_patch_exit"),
             "demo_with_patch": "git apply patch.diff; same command -> exit %s (101 = test failure)" % v.get("demo_with_patch_exit"),
             "suite_with_patch": "cargo test --offline --lib && cargo test --offline --doc (57 + 12 tests) -> exit %s" % v.get("suite_with_patch_exit"),
         },
